@@ -17,7 +17,7 @@ from checks.common.cases import explore_cases
 PROP = 'C17'
 LEVEL = 'exploration'
 SHARDS = {'quick': 4, 'thorough': 16}
-BUDGET_S = {'quick': 40, 'thorough': 400}
+BUDGET_S = {'quick': 150, 'thorough': 400}
 RULE = ('seeded histories of OneToOne operations (item set/delete, update with dict/pairs/one-shot iterator/'
         'kwargs, |=, setdefault, pop, popitem, clear, copy) and ManyToMany operations (add, remove, m[k]=vals, '
         'del, replace, update with ManyToMany/mapping/pairs/iterator) applied at random to the forward or the '
@@ -538,7 +538,7 @@ def gen_frozen(r):
 
 
 def run(ctx):
-    n = {'quick': 3000, 'thorough': 40000}[ctx.tier]
+    n = {'quick': 5000, 'thorough': 80000}[ctx.tier]
     explore(ctx, OtoCheck(), n, 'oto')
     explore(ctx, M2mCheck(), n, 'm2m')
     explore_cases(ctx, gen_frozen, check_frozen, n // 3, 'frozen')
